@@ -21,6 +21,29 @@ def run_unit(uid, overrides=None):
            'assumptions': u.assumptions}
     if overrides:
         extract.OVERRIDES.update(overrides)
+    if u.relpath is None:
+        try:
+            axioms, prove = u.make()
+            eng = engine.Engine(uid, axioms)
+            for vc in eng.run_lemma(prove):
+                solve.discharge(vc, axioms)
+                res['vcs'].append({'name': vc.name, 'kind': vc.kind, 'path': vc.decisions, 'status': vc.status,
+                                   'backend': vc.backend, 'seconds': vc.seconds,
+                                   'detail': vc.detail if vc.status != 'discharged' else ''})
+            s = z3.Solver()
+            s.set('auto_config', False)
+            s.set('smt.mbqi', False)
+            s.set('timeout', 3000)
+            for _, a in axioms:
+                s.add(a)
+            for f in getattr(eng, 'lemma_pc', []):
+                s.add(f)
+            res['probes'].append({'probe': 'axioms+lemma-context-not-refuted', 'ok': str(s.check()) != 'unsat'})
+        except Exception:
+            res['errors'].append('engine crash: ' + traceback.format_exc()[-2000:])
+            res['crash'] = True
+        res['wall_s'] = round(time.time() - t0, 3)
+        return res
     try:
         x = extract.get_function(u.relpath, u.qualname)
     except extract.ExtractionError as e:
